@@ -2,13 +2,20 @@ import RawPanelVerif.Model.Topology
 /-!
 # Model of `topology/svgicon.go` (C15): the nodes `GenerateCompositeSVGdoc` appends to the base document
 
-* The base document and the XML parser/printer (`go-xmldom`, `encoding/xml`) are parameters: `baseOk` says whether
-  `xmldom.ParseXML` accepted the base SVG and found a root; the model returns the list of nodes appended to the root
-  (`none` = the function returned `nil`, i.e. `GenerateCompositeSVG` returns `""`).
+* The base document enters as the summary of its `encoding/xml` token stream (`kinds`: one letter per token as
+  `Decoder.Token` delivers them, `S` = start element, `E` end element, `C`/`W` character data (non-blank / blank),
+  `M` comment, `P` processing instruction, `D` directive; `endOk` = the stream ended with `io.EOF`, not an error).
+  `parseXML` mirrors the control flow of `xmldom.Parse` on that stream: error / document without root / document
+  with root.  The tokenizer itself (`encoding/xml`) is a parameter.  The model returns the list of nodes appended
+  to the root (`none` = the function returned `nil`, i.e. `GenerateCompositeSVG` returns `""`).
+* `printNode` is `(*xmldom.Node).XML()` for a childless node: `<name k="v" …>text</name>` or `<name … />`, values and
+  text through `xml.EscapeText` (`escapeText`, with `utf8.DecodeRune` = `decodeRune`, for **all** byte strings:
+  invalid UTF-8, control characters, U+FFFE/U+FFFF become U+FFFD).
 * The topology arrives as JSON text produced by `ToJSON()`; by C14 (`json_roundtrip`) parsing it gives the topology back,
   so the model takes the topology itself.
 * `fmt.Sprintf("%03f", rotate)` of the `float32` rotation (and of `rotate + 90`) is a parameter `rot`: token ↦
   (text of the value, text of value+90, whether value+90 = 0).
+* `typeDef.Rotate != 0` is `rotIsZero token = false` (false for both zeros, `0` and `-0`).
 * `SetAttributeValue` replaces the value of an existing attribute, else appends.  Go `int` division truncates (`Int.tdiv`).
 -/
 namespace RawPanelVerif.Topo.Svg
@@ -23,6 +30,9 @@ structure RotInfo where
 deriving Repr, DecidableEq, Inhabited
 
 abbrev Opts := SvgOpts
+
+/-- the `%03f` text of a rotation token (first column of the supplied table) -/
+def fmtOf (rot : Str → RotInfo) (tk : Str) : Str := (rot tk).fmt
 
 def b (s : String) : Str := bytesOf s
 
@@ -56,7 +66,7 @@ def rotateStr (f : Str) (c : HWc) : Str := b "rotate(" ++ f ++ [32] ++ itoa c.x 
 
 /-- `if typeDef.Rotate != 0 { n.SetAttributeValue("transform", …) }` -/
 def withRotate (rot : Str → RotInfo) (td : TypeDef) (c : HWc) (n : Node) : Node :=
-  if td.rotate ≠ [48] then setAttr n (b "transform", rotateStr (rot td.rotate).fmt c) else n
+  if rotIsZero td.rotate = false then setAttr n (b "transform", rotateStr (rot td.rotate).fmt c) else n
 
 /-- `addFormatting` -/
 def addFormatting (n : Node) (id : Nat) : Node :=
@@ -172,9 +182,107 @@ def componentNodes (rot : Str → RotInfo) (o : Opts) (t : Topology) (mask : Opt
     mainShape rot c td :: (td.sub.flatMap (subShapes rot c td) ++ labelNodes rot o c td renderOptions ++ typeNode rot o c td ++
       dispSizeNode rot o c td ++ idNode rot o c td renderOptions)
 
-/-- `GenerateCompositeSVGdoc`: the children appended to the root; `none` = returned `nil` -/
-def compositeNodes (rot : Str → RotInfo) (baseOk : Bool) (o : Opts) (t : Topology) (mask : Option (List (Nat × Nat))) :
+/-- outcome of `xmldom.ParseXML` -/
+inductive ParseResult where
+  | err       -- `nil, err`
+  | noRoot    -- a document, `err == nil`, `Root == nil`
+  | root      -- a document with a root element
+deriving Repr, DecidableEq, Inhabited
+
+/-- `xmldom.Parse` on the token stream of `encoding/xml`: the first `Token()` failing (also with `io.EOF`: empty
+input) is an error; then the loop `for t != nil` sets `doc.Root` at the first start element; after the loop
+`err != io.EOF` is an error. -/
+def parseXML (kinds : Str) (endOk : Bool) : ParseResult :=
+  match kinds with
+  | [] => .err                                   -- `t, err := p.Token(); if err != nil { return nil, err }`
+  | _ =>
+    let rootSet := kinds.foldl (fun (seen : Bool) k => if k = 83 then true else seen) false
+    if !endOk then .err else if rootSet then .root else .noRoot
+
+/-- `GenerateCompositeSVGdoc` after `ParseXML`: the children appended to the root; `none` = returned `nil`
+(`err != nil`, or `svgDoc.Root == nil`) -/
+def compositeNodesP (rot : Str → RotInfo) (pr : ParseResult) (o : Opts) (t : Topology) (mask : Option (List (Nat × Nat))) :
     Option (List Node) :=
-  if baseOk then some (t.hwc.flatMap (componentNodes rot o t mask)) else none
+  match pr with
+  | .err => none
+  | .noRoot => none
+  | .root => some (t.hwc.flatMap (componentNodes rot o t mask))
+
+/-- `GenerateCompositeSVGdoc` -/
+def compositeNodes (rot : Str → RotInfo) (kinds : Str) (endOk : Bool) (o : Opts) (t : Topology)
+    (mask : Option (List (Nat × Nat))) : Option (List Node) :=
+  compositeNodesP rot (parseXML kinds endOk) o t mask
+
+/-! ## printing: `(*xmldom.Node).XML()` of an appended (childless) node -/
+
+/-- `utf8.DecodeRune`: (rune, width); `(RuneError, 1)` for an invalid or truncated encoding, width 0 only for `[]` -/
+def decodeRune : Str → Nat × Nat
+  | [] => (0xFFFD, 0)
+  | c0 :: r =>
+    let b0 := c0.toNat
+    if b0 < 0x80 then (b0, 1)
+    else if b0 < 0xC2 then (0xFFFD, 1)
+    else if b0 < 0xE0 then
+      match r with
+      | c1 :: _ =>
+        if 0x80 ≤ c1.toNat ∧ c1.toNat ≤ 0xBF then ((b0 % 32) * 64 + c1.toNat % 64, 2) else (0xFFFD, 1)
+      | [] => (0xFFFD, 1)
+    else if b0 < 0xF0 then
+      match r with
+      | c1 :: c2 :: _ =>
+        if (if b0 = 0xE0 then 0xA0 else 0x80) ≤ c1.toNat ∧ c1.toNat ≤ (if b0 = 0xED then 0x9F else 0xBF) ∧
+            0x80 ≤ c2.toNat ∧ c2.toNat ≤ 0xBF then
+          ((b0 % 16) * 4096 + (c1.toNat % 64) * 64 + c2.toNat % 64, 3)
+        else (0xFFFD, 1)
+      | _ => (0xFFFD, 1)
+    else if b0 < 0xF5 then
+      match r with
+      | c1 :: c2 :: c3 :: _ =>
+        if (if b0 = 0xF0 then 0x90 else 0x80) ≤ c1.toNat ∧ c1.toNat ≤ (if b0 = 0xF4 then 0x8F else 0xBF) ∧
+            0x80 ≤ c2.toNat ∧ c2.toNat ≤ 0xBF ∧ 0x80 ≤ c3.toNat ∧ c3.toNat ≤ 0xBF then
+          ((b0 % 8) * 262144 + (c1.toNat % 64) * 4096 + (c2.toNat % 64) * 64 + c3.toNat % 64, 4)
+        else (0xFFFD, 1)
+      | _ => (0xFFFD, 1)
+    else (0xFFFD, 1)
+
+/-- `isInCharacterRange` of encoding/xml -/
+def inCharRange (r : Nat) : Bool :=
+  r = 0x09 || r = 0x0A || r = 0x0D || (0x20 ≤ r && r ≤ 0xD7FF) || (0xE000 ≤ r && r ≤ 0xFFFD) || (0x10000 ≤ r && r ≤ 0x10FFFF)
+
+def escQuot : Str := [38, 35, 51, 52, 59]        -- &#34;
+def escApos : Str := [38, 35, 51, 57, 59]        -- &#39;
+def escAmp : Str := [38, 97, 109, 112, 59]       -- &amp;
+def escLT : Str := [38, 108, 116, 59]            -- &lt;
+def escGT : Str := [38, 103, 116, 59]            -- &gt;
+def escTab : Str := [38, 35, 120, 57, 59]        -- &#x9;
+def escNL : Str := [38, 35, 120, 65, 59]         -- &#xA;
+def escCR : Str := [38, 35, 120, 68, 59]         -- &#xD;
+def escFFFD : Str := [0xEF, 0xBF, 0xBD]          -- "\uFFFD"
+
+/-- what `escapeText` writes for the rune `(r, width)` decoded at the head of `s` -/
+def escOf (r width : Nat) (s : Str) : Str :=
+  if r = 34 then escQuot else if r = 39 then escApos else if r = 38 then escAmp else if r = 60 then escLT
+  else if r = 62 then escGT else if r = 9 then escTab else if r = 10 then escNL else if r = 13 then escCR
+  else if !inCharRange r || (r = 0xFFFD && width = 1) then escFFFD
+  else s.take width
+
+/-- the loop of `escapeText` (`fuel` ≥ number of runes; every rune of a non-empty rest has width ≥ 1) -/
+def escapeFuel : Nat → Str → Str
+  | 0, _ => []
+  | fuel + 1, s =>
+    match s with
+    | [] => []
+    | _ :: _ => escOf (decodeRune s).1 (decodeRune s).2 s ++ escapeFuel fuel (s.drop (decodeRune s).2)
+
+/-- `xml.EscapeText` / `xml.Escape` (escapeNewline = true) -/
+def escapeText (s : Str) : Str := escapeFuel s.length s
+
+/-- one attribute as `printXML` writes it: ` name="value"` -/
+def printAttr (kv : Str × Str) : Str := [32] ++ kv.1 ++ [61, 34] ++ escapeText kv.2 ++ [34]
+
+/-- `printXML(buf, n, 0, "")` for a node without children -/
+def printNode (n : Node) : Str :=
+  [60] ++ n.name ++ n.attrs.flatMap printAttr ++
+    (if n.text = [] then [32, 47, 62] else [62] ++ escapeText n.text ++ [60, 47] ++ n.name ++ [62])
 
 end RawPanelVerif.Topo.Svg
